@@ -41,6 +41,10 @@ impl caches::OnEvictCallback for RcCb { fn on_evict<K, V>(&self, _: &K, _: &V) {
 struct CellCb(Cell<u32>);
 impl Clone for CellCb { fn clone(&self) -> Self { self.0.set(self.0.get() + 1); CellCb(Cell::new(self.0.get())) } }
 impl caches::OnEvictCallback for CellCb { fn on_evict<K, V>(&self, _: &K, _: &V) { self.0.set(self.0.get() + 1); } }
+/// a key that is neither Send nor Sync
+#[derive(Debug, Clone, PartialEq, Eq, Hash)]
+struct RK(Rc<u32>);
+fn rk(n: u32) -> RK { RK(Rc::new(n)) }
 /// a key that is Send but not Sync
 #[derive(Debug, Clone, PartialEq, Eq, Hash)]
 struct NK(u32, PhantomData<Cell<()>>);
@@ -174,6 +178,10 @@ def gen_probes():
         add("send_guard_%s" % ty, "cross-thread", ty, "move-cache-sync-not-send", True,
             "    %s\n    let h = std::thread::spawn(move || { drop(c); });\n    h.join().unwrap();"
             % setup(ty, "u32", "MutexGuard<'static, u32>", u32k, guardv))
+        # cache with non-Send keys moved to another thread (the other thread drops Rc clones)
+        add("send_key_rc_%s" % ty, "cross-thread", ty, "move-cache-nonsend-key", True,
+            "    let k1 = rk(1);\n    let keep = k1.clone();\n    %s\n    let h = std::thread::spawn(move || { drop(c); });\n    drop(keep);\n    h.join().unwrap();"
+            % setup(ty, "RK", "u32", lambda i: ("k1.clone()" if i == 1 else "rk(%d)" % i), u32v))
         add("ctl_send_%s" % ty, "control", ty, "move-cache", False,
             "    %s\n    let h = std::thread::spawn(move || { touch(c.peek(&1)); drop(c); });\n    h.join().unwrap();" % setup(ty, "u32", "u32", u32k, u32v))
         add("ctl_sync_%s" % ty, "control", ty, "share-cache", False,
